@@ -64,6 +64,7 @@ class Contract:
     bodytags: Dict[str, tuple] = field(default_factory=dict)
     holds: List[tuple] = field(default_factory=list)   # (var, decl_regex, until_regex, oid, tags, src)
     callsites: List[tuple] = field(default_factory=list)  # (call_regex, oid, tags): this fn is the only caller
+    mustcall: List[tuple] = field(default_factory=list)   # (call_regex, oid, tags): called unconditionally (top block of the body)
     ghost: str = ''                 # ghost members appended inside the item body (struct/impl/trait)
     stub: bool = False
     after: str = ''                 # ghost items emitted right after the item
@@ -192,6 +193,11 @@ def parse_file(path: str) -> List[Contract]:
             if not mm:
                 raise ContractError('%s: @holds <var> from /re/ until /re/ <id> [tags]' % where)
             cur.holds.append((mm.group(1), mm.group(2), mm.group(3), mm.group(4), mm.group(5).split(), where))
+        elif d == 'mustcall':
+            mm = re.match(r'/(.*)/\s+(\S+)\s+\[([^\]]*)\]\s*$', arg)
+            if not mm:
+                raise ContractError('%s: @mustcall /call-regex/ <id> [tags]' % where)
+            cur.mustcall.append((mm.group(1), mm.group(2), mm.group(3).split()))
         elif d == 'onlycaller':
             mm = re.match(r'/(.*)/\s+(\S+)\s+\[([^\]]*)\]\s*$', arg)
             if not mm:
